@@ -36,8 +36,10 @@ theorem ping_fresh (cfg : Cfg) (k : K) (t : Nat) (h : checkFails cfg k t = false
 
 
 /-- T2 structure facts, regenerated from go/client on every run: the statements of `keepalive` (ticker on the interval; pong clock started; `check`: no ping outstanding → healthy, else elapsed > KeepaliveTimeout → dead; `ping`: skipped while recovering, fresh id, bookkeeping after the write; the loop snapshots the conn under the read lock BEFORE check and hands that snapshot to `reconnecting`), of `handlePing` (callback, echo with the request's id and body through the ordinary write path) and `handlePong` (callback, pong clock), the keepalive option setters and the defaults constructor (no rewriting of the configured values), and the operation order of `keepalive` -/
+/- (instrumentation statements — `verifhook.Point(…)`, empty without the build tag — are stripped by the extractor before the statement
+lists are emitted: a new yield point does not change what is pinned here) -/
 theorem keepalive_source :
-    Gen.stmts_client_keepalive = ["t := time.NewTicker(c.dialOptions.Keepalive)", "now := time.Now()", "c.stateMu.Lock()", "c.lastPongAt = now", "c.stateMu.Unlock()", "check := func() error { c.stateMu.Lock() id, at := c.lastKeepaliveId, c.lastPongAt c.stateMu.Unlock() verifhook.Point(\"keepalive:check\", uint64(id), uint64(time.Since(at)/time.Millisecond), uint64(c.dialOptions.KeepaliveTimeout/time.Millisecond)) if id == 0 { return nil } if d := time.Since(at); d > c.dialOptions.KeepaliveTimeout { return errors.Errorf(\"keepalive timeout %s\", d.String()) } return nil }", "ping := func() error { c.RLock() defer c.RUnlock() if c.doReconnectting { return nil } if c.conn == nil || c.conn.Context() == nil { return nil } id := c.conn.Context().NextReqId() hid := new(int32) *hid = int32(id) p, err := protocol.NewPacket(c.conn.Context(), protocol.RequestPacket, uint32(control.Command_CMD_HEARTBEAT), &control.Heartbeat{Timestamp: time.Now().UnixNano() / int64(time.Millisecond), HeartbeatId: hid}, protocol.WithRequestId(id)) if err != nil { return err } if err = c.write(&p); err != nil { return err } c.stateMu.Lock() c.lastKeepaliveId = id c.stateMu.Unlock() verifhook.Point(\"keepalive:ping\", uint64(id)) return nil }", "for { select { case <-c.closeCh: return case <-t.C: c.RLock() conn := c.conn c.RUnlock() if err := check(); err != nil { c.Logger.Errorf(\"keepalive error: %v\", err) verifhook.Point(\"keepalive:timeout\") c.reconnecting(conn) continue } if err := ping(); err != nil { c.Logger.Errorf(\"keepalive failed to ping, err: %v\", err) c.reconnecting(conn) continue } } }"] ∧
+    Gen.stmts_client_keepalive = ["t := time.NewTicker(c.dialOptions.Keepalive)", "now := time.Now()", "c.stateMu.Lock()", "c.lastPongAt = now", "c.stateMu.Unlock()", "check := func() error { c.stateMu.Lock() id, at := c.lastKeepaliveId, c.lastPongAt c.stateMu.Unlock() if id == 0 { return nil } if d := time.Since(at); d > c.dialOptions.KeepaliveTimeout { return errors.Errorf(\"keepalive timeout %s\", d.String()) } return nil }", "ping := func() error { c.RLock() defer c.RUnlock() if c.doReconnectting { return nil } if c.conn == nil || c.conn.Context() == nil { return nil } id := c.conn.Context().NextReqId() hid := new(int32) *hid = int32(id) p, err := protocol.NewPacket(c.conn.Context(), protocol.RequestPacket, uint32(control.Command_CMD_HEARTBEAT), &control.Heartbeat{Timestamp: time.Now().UnixNano() / int64(time.Millisecond), HeartbeatId: hid}, protocol.WithRequestId(id)) if err != nil { return err } if err = c.write(&p); err != nil { return err } c.stateMu.Lock() c.lastKeepaliveId = id c.stateMu.Unlock() return nil }", "for { select { case <-c.closeCh: return case <-t.C: c.RLock() conn := c.conn c.RUnlock() if err := check(); err != nil { c.Logger.Errorf(\"keepalive error: %v\", err) c.reconnecting(conn) continue } if err := ping(); err != nil { c.Logger.Errorf(\"keepalive failed to ping, err: %v\", err) c.reconnecting(conn) continue } } }"] ∧
     Gen.stmts_client_handlePing = ["if c.onPing != nil { c.onPing(packet) }", "if !conn.NeedHandleControl() { return }", "res, _ := protocol.NewResponse(conn.Context(), uint32(control.Command_CMD_HEARTBEAT), protocol.StatusSuccess, packet.Body, protocol.WithRequestId(packet.Metadata.RequestId))", "if err := conn.Write(&res, protocol.GzipSize(c.dialOptions.MinGzipSize)); err != nil { c.Logger.Errorf(\"failed to send heartbeat ack, err: %v\", err) }"] ∧
     Gen.stmts_client_handlePong = ["if c.onPong != nil { c.onPong(packet) }", "c.stateMu.Lock()", "c.lastPongAt = time.Now()", "c.stateMu.Unlock()"] ∧
     Gen.stmts_opt_newDialOptions = ["o := &DialOptions{ Timeout: defaultDialTimeout, AuthTimeout: defaultAuthTimeout, KeepaliveTimeout: defaultKeepaliveTimeout, Keepalive: defaultKeepalive, ReadBufferSize: defaultReadBufferSize, ReadQueueSize: defaultReadQueueSize, WriteQueueSize: defaultWriteQueueSize, MinGzipSize: defaultMinGzipSize, }", "for _, opt := range opts { opt(o) }", "return o"] ∧
